@@ -173,6 +173,9 @@ func checkC12(c C12Case) (o Outcome) {
 	saverCmd := []string{saverPath(), jobPath}
 	if pidNamespaces() {
 		saverCmd = append([]string{"unshare", "-pf"}, saverCmd...)
+		o.class("saver-and-restart-share-a-process-id")
+	} else {
+		o.class("no-process-id-namespace-available")
 	}
 	cmd := exec.Command("strace", append([]string{"-f", "-xx", "-s", "10000000", "-o", tracePath,
 		"-e", "trace=%file,write,pwrite64,pwritev,pwritev2,writev,close,ftruncate,fsync,fdatasync,fallocate,dup,dup2,dup3,fcntl,sendfile,copy_file_range,splice"},
